@@ -12,7 +12,7 @@ from . import tlc
 from .common import setup_repo, rng
 
 SAMPLE = 2
-KINDS = ['src', 'map', 'filter', 'del', 'obs', 'sort', 'fin', 'fault']
+KINDS = ['src', 'map', 'filter', 'del', 'obs', 'sort', 'fin', 'dup', 'cat', 'fault']
 
 # variants: the real processors an abstract kind stands for
 VARIANTS = {
@@ -23,6 +23,8 @@ VARIANTS = {
     'obs': ['dump_to_path', 'dump_to_zip', 'stream', 'checkpoint', 'dump_to_path_json'],
     'sort': ['sort_rows'],
     'fin': ['finalizer', 'finalizer_stats'],
+    'dup': ['duplicate', 'duplicate_batch1'],
+    'cat': ['concatenate'],
     'fault': ['processor'],
 }
 
@@ -210,6 +212,11 @@ class Run:
                 return ('checkpoint', p)
         if k == 'sort':
             return DF.sort_rows('{v}', reverse=True)
+        if k == 'dup':
+            # duplicate(): the first resource, the copy right after it (unique names per step)
+            return DF.duplicate(target_name='copy%d' % i, target_path='copy%d.csv' % i, batch_size=1 if variant == 'duplicate_batch1' else 1000)
+        if k == 'cat':
+            return DF.concatenate(dict(s=[], k=[], v=[]), target=dict(name='cat%d' % i, path='cat%d.csv' % i))
         if k == 'fin':
             self.fin_calls[i] = 0
             if variant == 'finalizer_stats':
@@ -392,12 +399,12 @@ def random_program(r, max_len, kinds, need=None):
             if k == 'src':
                 steps.append({'kind': 'src', 'rows': r.choice([[], [1], [1, 2, 3]])})
                 nres += 1
-            elif k == 'del':
+            elif k in ('del', 'dup', 'cat'):
                 if nres < 1:
                     ok = False
                     break
-                nres -= 1
-                steps.append({'kind': 'del'})
+                nres = nres - 1 if k == 'del' else nres + 1 if k == 'dup' else 1
+                steps.append({'kind': k})
             elif k == 'fault':
                 steps.append({'kind': 'fault', 'at': r.choice(['pkg', 'row', 'end']), 'cls': r.choice(['gen', 'cast', 'uniq'])})
             else:
@@ -450,8 +457,8 @@ def well_typed(steps):
     for s in steps:
         if s['kind'] == 'src':
             n += 1
-        elif s['kind'] == 'del':
+        elif s['kind'] in ('del', 'dup', 'cat'):
             if n < 1:
                 return False
-            n -= 1
+            n = n - 1 if s['kind'] == 'del' else n + 1 if s['kind'] == 'dup' else 1
     return True
